@@ -762,10 +762,14 @@ public:
       dom_var_alloc_t palloc(left._alloc, right._alloc);
 
       // Build up the mapping of right onto left, variable by variable.
-      // Assumption: the set of variables in left & right are common.
-      for (auto p : left._var_map) {
+      // The sets of variables of left and right can differ: a
+      // variable tracked only by right may be constrained there, so
+      // it must be mapped as well (left gets a fresh unconstrained
+      // term for it). A variable tracked only by left is unconstrained
+      // in right so it does not need to be mapped.
+      for (auto p : right._var_map) {
         if (!left._ttbl.map_leq(right._ttbl, left.term_of_var(p.first),
-                                right.term_of_var(p.first), gen_map))
+                                p.second, gen_map))
           return false;
       }
       // We now have a mapping of reachable y-terms to x-terms.
